@@ -5,10 +5,10 @@
 # go.mod points at that worktree (tools/try_seed.sh). Can run while other
 # checks use /repo. Writes seeded/RESULTS.txt.
 cd "$(dirname "$0")/.." || exit 1
-wt=/tmp/rs-wt
+wt=${RS_WT:-/tmp/rs-wt} # two instances may run side by side with different RS_WT and disjoint properties
 git -C /repo worktree remove --force $wt 2>/dev/null
 git -C /repo worktree add --detach $wt HEAD >/dev/null 2>&1 || { echo "cannot create worktree"; exit 1; }
-trap 'git -C /repo worktree remove --force $wt 2>/dev/null; rm -rf /tmp/vs-C??' EXIT INT TERM
+trap 'git -C /repo worktree remove --force $wt 2>/dev/null' EXIT INT TERM
 seeds=${*:-$(ls seeded | grep -v RESULTS)}
 out=seeded/RESULTS.txt
 if [ $# -eq 0 ]; then echo "# quick check of each seed's property against a scratch worktree of /repo $(git -C /repo rev-parse --short HEAD) with the patch applied (tools/run_seeds_scratch.sh)" > $out; fi
